@@ -195,9 +195,15 @@ class TWorld:
             raise TViolation(prop + ".listed_column_missing", "%s: table #%d lists column %r but holds no such data" % (where, tid, missing[0]))
         if len(set(cols)) != len(cols):
             raise TViolation(prop + ".duplicate_column", "%s: table #%d lists a column twice: %s" % (where, tid, cols))
-        n = len(t)
+        try:
+            n = len(t)
+        except Exception as e:
+            raise TViolation(prop + ".ragged", "%s: table #%d: len(table) raises %s: %s" % (where, tid, type(e).__name__, e))
         for c in cols:
-            ln = len(t._data[c])
+            v = t._data[c]
+            if not hasattr(v, "__len__") or getattr(v, "shape", (0,)) == ():
+                raise TViolation(prop + ".ragged", "%s: table #%d: column %r is not a sequence of rows but %r" % (where, tid, c, v))
+            ln = len(v)
             if ln != n:
                 raise TViolation(prop + ".ragged", "%s: table #%d: column %r has length %d, len(table) is %d" % (where, tid, c, ln, n))
         if t._index is not None and t._index not in cols:
